@@ -1396,7 +1396,13 @@ func (c *BytecodeCompiler) compileNode(node ast.Node, valueIsIgnored bool) expre
 		c.compileAwaitExpressionNode(node)
 	case *ast.YieldExpressionNode:
 		c.compileYieldExpressionNode(node)
-		return expressionCompiledWithoutResult
+		if valueIsIgnored {
+			return expressionCompiledWithoutResult
+		}
+		// unlike return, execution continues after a yield: where a value is expected
+		// (eg. the last statement of a loop body) the void expression leaves nil
+		c.emit(node.Location().EndPos.Line, bytecode.NIL)
+		return expressionCompiled
 	case *ast.VariablePatternDeclarationNode:
 		c.compileVariablePatternDeclarationNode(node)
 	case *ast.VariableDeclarationNode:
